@@ -78,9 +78,9 @@ class CVRPTW(Adapter):
             plan = [(3, [(0, 0), (1, 2)], [(0, 0, 0), (2, 0, 1)], [((1, 1, 2), 2), ((1, 2, 1), 4)], 7)]
         else:
             plan = [(3, [(0, 0), (1, 2), (2, 1)], [(0, 0, 0), (2, 0, 1), (1, 3, 0)],
-                     [((1, 1, 2), 2), ((1, 2, 1), 4), ((2, 1, 1), 3)], 30),
+                     [((1, 1, 2), 2), ((1, 2, 1), 4), ((2, 1, 1), 3)], 15),
                     (4, [(0, 0), (1, 1), (3, 2)], [(0, 0, 0, 0), (1, 0, 2, 1)],
-                     [((1, 1, 2, 1), 3), ((2, 1, 1, 2), 4)], 15)]
+                     [((1, 1, 2, 1), 3), ((2, 1, 1, 2), 4)], 8)]
         for (N, tmpl, durs, loads, per) in plan:
             nopt = 5
             allc = list(itertools.product(range(nopt), repeat=N))
@@ -122,7 +122,7 @@ class CVRPTW(Adapter):
                 "visited": [int(i) for i in td["visited"][r].nonzero().flatten().tolist()],
                 "time": int(round(t)) if abs(t - round(t)) < 1e-3 else -1}
 
-    # ---- checker: alone, and (single rows) behind a well-formed batch-mate ----------------
+    # ---- checker: every row alone (or with rows of equal horizon) AND behind a well-formed batch-mate ----
     KEYS = ("locs", "demand", "vehicle_capacity", "time_windows", "durations")
 
     def check(self, env, td, actions):
@@ -145,19 +145,40 @@ class CVRPTW(Adapter):
         the accepted row is checked again as row 1 of a two-row batch whose row 0 is a
         well-formed instance (accepted on its own) with an earlier depot closing time."""
         row = TensorDict({k: td[k].clone() for k in self.KEYS}, batch_size=[1])
+        key = tuple(row[k].numpy().tobytes() for k in self.KEYS) + (tuple(actions[0].tolist()),)
+        cache = self.__dict__.setdefault("_mate_cache", {})
+        if key not in cache:
+            cache[key] = self._behind_mate_uncached(env, row, actions)
+        if cache[key] is not None:
+            raise AssertionError(cache[key])
+
+    def _behind_mate_uncached(self, env, row, actions):
         mate = self._mate(row, actions)
         if mate is None:
-            return
+            return None
         try:
             env.check_solution_validity(mate, actions)
         except Exception:
-            return                      # the mate must be fine on its own, else no statement
+            return None                 # the mate must be fine on its own, else no statement
         both = torch.cat([mate, row], 0)
         try:
             env.check_solution_validity(both, torch.cat([actions, actions], 0))
         except Exception as e:
-            raise AssertionError("only when batched behind a mate with an earlier depot closing time: "
-                                 + str(e)[:60])
+            return ("only when batched behind a mate with an earlier depot closing time: "
+                    + str(e)[:60])
+        return None
+
+    def checker_candidates(self, fam, sols, tier, seed=0):
+        """the CVRPTW checker is a Python loop over the steps (about 1 ms per call): keep every
+        feasible candidate and a seeded sample of the corruptions"""
+        cands = super().checker_candidates(fam, sols, tier, seed)
+        cap = 4000 if tier == "quick" else 30000
+        if len(cands) <= cap:
+            return cands
+        keep = [c for c in cands if c["why"] == "feasible"]
+        rest = [c for c in cands if c["why"] != "feasible"]
+        random.Random(seed).shuffle(rest)
+        return keep + rest[: max(0, cap - len(keep))]
 
     @staticmethod
     def _mate(row, actions):
